@@ -119,3 +119,19 @@ func DumpNilLookups(p *core.Prog, pkgs string) {
 		fmt.Printf("%s: %s.%s  <- %s   in %s\n", p.Pos(f.Pos), f.Var, f.Field, f.Lookup, f.Fn.Name)
 	}
 }
+
+// DumpSwapped prints the suspicious sites of swappedArgSites over every loaded package of the module.
+func DumpSwapped(p *core.Prog) {
+	var rels []string
+	for rel := range p.ByPath {
+		rels = append(rels, rel)
+	}
+	sort.Strings(rels)
+	sites, bad := swappedArgSites(p, rels, rels)
+	fmt.Printf("%d sites compared\n", len(sites))
+	for _, st := range sites {
+		if d, ok := bad[st.Ev]; ok {
+			fmt.Printf("%s: %s\n", p.Pos(st.Ev.Pos()), d)
+		}
+	}
+}
